@@ -46,6 +46,14 @@ impl Print {
 
 impl LyNative for Print {
   fn call(&self, hooks: &mut Hooks, args: &[Value]) -> Call {
+    if args.is_empty() {
+      let mut stdio = hooks.as_io().stdio();
+      return match writeln!(stdio.stdout()) {
+        Ok(_) => Call::Ok(VALUE_NIL),
+        Err(err) => panic!("TODO return some sort of io error {err}"),
+      };
+    }
+
     let str_method = hooks.get_method(args[0], self.method_str)?;
     let mut output = String::from(
       &*hooks
